@@ -544,6 +544,46 @@ pub fn main(args: &[String]) {
                 }
             }
         }
+        Some("determinism") => {
+            // C07 for the subsetter: the same request on the same font gives the same bytes - repeated, after other
+            // subsetting work, and on several threads at once
+            let mut rng = Rng::new(0xc07);
+            for (name, bytes) in corpus() {
+                let Ok(f) = FontRef::new(&bytes) else { continue };
+                let n = f.maxp().map(|m| m.num_glyphs() as u32).unwrap_or(0);
+                if n == 0 || bytes.len() > 600_000 {
+                    continue;
+                }
+                let cps: Vec<u32> = f.charmap().mappings().map(|m| m.0).collect();
+                let r = Request {
+                    gids: (0..6).map(|_| rng.below(n as u64) as u32).collect(),
+                    cps: (0..8).filter_map(|_| if cps.is_empty() { None } else { Some(*rng.pick(&cps)) }).collect(),
+                    retain: rng.chance(1, 2), notdef: true, no_hinting: rng.chance(1, 3), overlaps: false,
+                };
+                let case = json!({"kind": "subset-determinism", "font": name, "gids": r.gids, "cps": r.cps, "retain": r.retain, "no_hinting": r.no_hinting});
+                let run = |bytes: &[u8]| -> Result<Vec<u8>, String> {
+                    let f = FontRef::new(bytes).map_err(|e| e.to_string())?;
+                    let plan = plan_for(&f, &r);
+                    subset_font(&f, &plan).map_err(|e| format!("{e}"))
+                };
+                rep.evaluations += 1;
+                let Ok(first) = guarded(|| run(&bytes)) else { continue };
+                let mut same = true;
+                for _ in 0..2 {
+                    same &= guarded(|| run(&bytes)).ok() == Some(first.clone());
+                }
+                let threads: Vec<Result<Vec<u8>, String>> = std::thread::scope(|s| {
+                    let hs: Vec<_> = (0..4).map(|_| s.spawn(|| run(&bytes))).collect();
+                    hs.into_iter().map(|h| h.join().unwrap_or(Err("panic".into()))).collect()
+                });
+                same &= threads.iter().all(|t| *t == first);
+                if !same {
+                    rep.violation(&format!("{name}: subsetting the same request again (or on another thread) gives different bytes"), case);
+                }
+                ev.push(json!({"op": "subset_determinism", "font": name, "same": same}));
+                rep.distinct += 1;
+            }
+        }
         Some("biggvar") => {
             // a variable font whose kept glyphs carry more gvar data than short offsets reach (131070 bytes) while the glyphs
             // that come first in the font carry almost none: the subset must choose its offset format from the data it keeps
